@@ -47,6 +47,11 @@ func vfC08DrawRules(t *rapid.T, label string, domains []string) (rs []vfC08Rule)
 		switch r.Kind {
 		case "exact":
 			r.Text = r.Domain
+			if rapid.IntRange(0, 3).Draw(t, fmt.Sprintf("%s_%d_fqdn", label, i)) == 0 {
+				// the same name, spelled fully qualified
+				r.Text += "."
+				vfC08.Class("ignore_list:plain_name_with_final_dot")
+			}
 		case "domain":
 			r.Text = "||" + r.Domain + "^"
 		case "wildcard":
@@ -142,7 +147,13 @@ func vfC08Draw(t *rapid.T) (c *vfC08Conf) {
 	c.RefuseAny = rapid.Bool().Draw(t, "refuse_any")
 	nd := rapid.IntRange(1, 3).Draw(t, "n_domains")
 	for i := 0; i < nd; i++ {
-		c.Domains = append(c.Domains, vfDrawDomain(t, fmt.Sprintf("dom%d", i)))
+		d := vfDrawDomain(t, fmt.Sprintf("dom%d", i))
+		if rapid.IntRange(0, 5).Draw(t, fmt.Sprintf("dom%d_device", i)) == 0 {
+			// the bare name of a device on the local network
+			d = rapid.SampledFrom([]string{"r2", "x", "nas1", "printer-5", "tv"}).Draw(t, fmt.Sprintf("dom%d_device_name", i))
+			vfC08.Class("ignore_list:device_name")
+		}
+		c.Domains = append(c.Domains, d)
 	}
 	c.LogRules = vfC08DrawRules(t, "logign", c.Domains)
 	c.StatRules = vfC08DrawRules(t, "statign", c.Domains)
